@@ -132,6 +132,30 @@ def r13b(ctx, rep, cr):
                           'these transactions is dropped on restart' % fld)
 
 
+def r13c(ctx, rep, cr):
+    rep.rule('R13c', 'an abort is announced to participants only after its AbortIntent was handed to the log: in '
+                     'process_pending_aborts no transport send is reachable without passing log_wal_entry(AbortIntent)')
+    name = T.COORD + 'process_pending_aborts'
+    bodies = [h for h in A.with_closures(cr.fns, name) if h.d.get('co')]
+    if not bodies:
+        rep.violation('R13c', 'anchor-missing', name, '-', 'anchor-missing: process_pending_aborts not found')
+        return
+    f = bodies[0]
+    rep.analysed(f)
+    defs = A.Defs(f)
+    logs = T.log_calls(f, defs, 'AbortIntent')
+    sends = [c for c in A.calls(f) if re.search(r'Transport(>)?::send$', c.generic) or c.resolved.endswith('Transport::send')]
+    if not logs or not sends:
+        rep.violation('R13c', f, 'shape', f.loc(), 'anchor-missing: AbortIntent log (%d) / transport send (%d)' % (len(logs), len(sends)))
+        return
+    R = A.reachable(f, [0], cut_blocks={c.bb for c in logs})
+    bad = [c for c in sends if c.bb in R]
+    if bad:
+        rep.violation('R13c', f, 'send-before-intent', f.loc(bad[0].line), 'an abort can be sent to a shard before its AbortIntent record was written: a crash loses the fact that shards were told to abort')
+    else:
+        rep.holds('R13c', f, 'intent→send', '%d send site(s) after the AbortIntent record' % len(sends))
+
+
 def run(ctx, rep):
     cr = ctx.crate('tensor_chain')
     wal_rules.r02b(ctx, rep, ['TxWal'])
@@ -141,3 +165,4 @@ def run(ctx, rep):
     c03.r03e(ctx, rep, cr)
     r13a(ctx, rep, cr)
     r13b(ctx, rep, cr)
+    r13c(ctx, rep, cr)
